@@ -222,6 +222,18 @@ pub fn gen_c02(rng: &mut Prng, thorough: bool, out: &mut Out) {
                         v(out, sc, &sd, sk, &m[..m.len() - 1]);
                         v(out, sc, &sd, sk, &[]);
                     }
+                    // the message with the signer's public-key encoding in front, and back: four distinct inputs
+                    {
+                        let pkb = enc_pk(g1, sk);
+                        let pm = cat(&[&pkb, &m]);
+                        let ppm = cat(&[&pkb, &pkb, &m]);
+                        let sd_pm = sig_dlog(g1, scheme, sk, &pm);
+                        v(out, sc, &sd_pm, sk, &pm);      // honest over pk || m
+                        v(out, sc, &sd, sk, &pm);         // signature over m presented for pk || m
+                        v(out, sc, &sd_pm, sk, &m);       // and the reverse
+                        v(out, sc, &sd_pm, sk, &ppm);
+                        out.case(g1, &format!("sk_sign s{} c{} x{}", hs(sk), sc, hx(&pm)));
+                    }
                     // key perturbations
                     for pk in [other, *sk + RScalar::ONE, -*sk] {
                         v(out, sc, &sd, &pk, &m);
@@ -730,6 +742,8 @@ pub fn gen_c11(rng: &mut Prng, thorough: bool, out: &mut Out) {
                 let ct2 = ct_tok(&u2, &v2, &w2, s2);
                 out.case(g1, &format!("scct_is_valid {}", ct2));
                 out.case(g1, &format!("scct_decrypt {} s{}", ct2, hs(&sk)));
+                // the decryption key released for the original ciphertext (u * sk) presented with the altered one
+                out.case(g1, &format!("scdk_decrypt {} q{}", ct2, hs(&(u * sk))));
             }
             // wrong keys
             let wrong = rng.scalar();
@@ -829,6 +843,17 @@ pub fn gen_c13(rng: &mut Prng, thorough: bool, out: &mut Out) {
             if len > 300 {
                 continue;
             }
+            if li < 6 {
+                // an identifier that itself starts with the recipient's public-key encoding (key-namespaced ids):
+                // the ciphertext is bound to amsg(pk || x), the signature over x must not open it
+                let pkb = enc_pk(g1, &sk);
+                let id2 = cat(&[&pkb, &id]);
+                out.case(g1, &format!("pk_encrypt_time_lock q{} c{} x{} x{} x{}", hs(&sk), sc, hx(&msg), hx(&id2), hx(&seed)));
+                let idp2 = amsg(g1, scheme, &sk, &id2);
+                let (u2, v2, w2) = tl_seal_ref(g1, &sk, &msg, &idp2, &d, &seed);
+                dec(out, &u2, &v2, &w2, scheme, scheme, &sig_dlog(g1, scheme, &sk, &id2));
+                dec(out, &u2, &v2, &w2, scheme, scheme, &sig);
+            }
             // built for the identity signature (K = 1): must not open with it
             let (iu, iv, iw) = tl_seal_ref(g1, &RScalar::ZERO, &msg, &idp, &d, &seed);
             dec(out, &iu, &iv, &iw, scheme, scheme, &RScalar::ZERO);
@@ -903,6 +928,17 @@ pub fn gen_c14(rng: &mut Prng, thorough: bool, out: &mut Out) {
             let k = 2 + (i % 15);
             let cts: Vec<String> = (0..k).map(|_| format!("q{} q{}", hs(&rng.scalar()), hs(&rng.scalar()))).collect();
             out.case(g1, &format!("egct_add {}", list_tok(&cts)));
+            // operands with an identity component, and running totals whose first components cancel
+            {
+                let (x, y, z, t) = (rng.scalar(), rng.scalar(), rng.scalar(), rng.scalar());
+                let tok = |a: &RScalar, b: &RScalar| format!("q{} q{}", hs(a), hs(b));
+                let zero = RScalar::ZERO;
+                out.case(g1, &format!("egct_add {}", list_tok(&[tok(&zero, &x), tok(&y, &z)])));
+                out.case(g1, &format!("egct_add {}", list_tok(&[tok(&x, &zero), tok(&y, &z)])));
+                out.case(g1, &format!("egct_add {}", list_tok(&[tok(&y, &z), tok(&zero, &x)])));
+                out.case(g1, &format!("egct_add {}", list_tok(&[tok(&x, &y), tok(&-x, &z), tok(&t, &x)])));
+                out.case(g1, &format!("egct_add {}", list_tok(&[tok(&zero, &zero), tok(&y, &z), tok(&t, &x)])));
+            }
             // proof verification on arbitrary (invalid) tuples and guards
             let (mp, bp, ch) = (rng.scalar(), rng.scalar(), rng.scalar());
             out.case(g1, &format!("egp_verify q{} q{} s{} s{} s{} q{}", hs(&c1), hs(&c2), hs(&mp), hs(&bp), hs(&ch), hs(&sk)));
